@@ -906,6 +906,99 @@ theorem specStepC_build (regs : List Reg) (silent : Bool) (t : Option Int) :
   · rfl
   · simp only [h1, h2]
 
+/-! ### histories -/
+
+theorem sessionAfter_nil (p : Prims) (st : Session) : sessionAfter p st [] = st := rfl
+
+theorem sessionAfter_cons (p : Prims) (st : Session) (h : HStep) (hs : List HStep) :
+    sessionAfter p st (h :: hs) = sessionAfter p (applyStep p st h).1 hs := by
+  simp only [sessionAfter, runHistory]
+
+theorem sessionAfter_append (p : Prims) (a b : List HStep) : ∀ st,
+    sessionAfter p st (a ++ b) = sessionAfter p (sessionAfter p st a) b := by
+  induction a with
+  | nil => intro st; rfl
+  | cons h hs ih => intro st; simp only [List.cons_append, sessionAfter_cons, ih]
+
+/-- the registry part of a step: the client only changes by registrations (contents) or by allocating result lists -/
+theorem applyStep_client (p : Prims) (st : Session) (hw : WF st.client) (h : HStep) :
+    WF (applyStep p st h).1.client ∧
+    (∀ k, stored (applyStep p st h).1.client k = stored st.client k ++ registeredFor (regsOf [h]) k) ∧
+    (∀ n, (applyStep p st h).1.client.iattrs.lookup n = (regsOf [h]).foldl (instAttrStep n) (st.client.iattrs.lookup n)) ∧
+    (∀ n, (applyStep p st h).1.client.cattrs.lookup n = (regsOf [h]).foldl (classAttrStep n) (st.client.cattrs.lookup n)) := by
+  have same : ∀ c', Extends st.client c' →
+      WF c' ∧ (∀ k, stored c' k = stored st.client k ++ registeredFor [] k) ∧
+      (∀ n, c'.iattrs.lookup n = st.client.iattrs.lookup n) ∧ (∀ n, c'.cattrs.lookup n = st.client.cattrs.lookup n) :=
+    fun c' e => ⟨e.wf hw, fun k => by simp [e.stored hw, registeredFor], fun n => by rw [e.iattrs], fun n => by rw [e.cattrs]⟩
+  cases h with
+  | setSleep s => exact same _ (Extends.refl _)
+  | setJitter j => exact same _ (Extends.refl _)
+  | run id s j c u q =>
+    simp only [applyStep]
+    split <;> exact same _ (Extends.refl _)
+  | sleep u =>
+    simp only [applyStep]
+    split <;> exact same _ (Extends.refl _)
+  | getHandlers k => exact same _ (getHandlers_spec st.client hw k).1
+  | task silent t =>
+    simp only [applyStep]
+    split <;> exact same _ (loopStep_spec st.client hw silent t).2
+  | «show» =>
+    simp only [applyStep]
+    split <;> exact same _ (Extends.refl _)
+  | reg r =>
+    obtain ⟨n1, n2, n3, n4⟩ := next_spec st.client hw r
+    have e : (applyStep p st (.reg r)).1.client = next st.client r := by
+      simp only [applyStep, next]
+      cases applyReg st.client r <;> rfl
+    rw [e]
+    refine ⟨n1, fun k => ?_, fun n => ?_, fun n => ?_⟩
+    · rw [n2, regsOf, regsOf, registeredFor_cons]; simp [registeredFor]
+    · rw [n3]; rfl
+    · rw [n4]; rfl
+
+theorem regsOf_cons (h : HStep) (hs : List HStep) : regsOf (h :: hs) = regsOf [h] ++ regsOf hs := by
+  cases h <;> simp [regsOf]
+
+theorem registeredFor_append (a b : List Reg) (k : Key) :
+    registeredFor (a ++ b) k = registeredFor a k ++ registeredFor b k := by
+  simp [registeredFor, List.filterMap_append]
+
+theorem sessionAfter_client (p : Prims) (hs : List HStep) : ∀ st, WF st.client →
+    WF (sessionAfter p st hs).client ∧
+    (∀ k, stored (sessionAfter p st hs).client k = stored st.client k ++ registeredFor (regsOf hs) k) ∧
+    (∀ n, (sessionAfter p st hs).client.iattrs.lookup n = (regsOf hs).foldl (instAttrStep n) (st.client.iattrs.lookup n)) ∧
+    (∀ n, (sessionAfter p st hs).client.cattrs.lookup n = (regsOf hs).foldl (classAttrStep n) (st.client.cattrs.lookup n)) := by
+  induction hs with
+  | nil => intro st hw; exact ⟨hw, fun k => by simp [sessionAfter_nil, regsOf, registeredFor], fun n => rfl, fun n => rfl⟩
+  | cons h hs ih =>
+    intro st hw
+    obtain ⟨a1, a2, a3, a4⟩ := applyStep_client p st hw h
+    obtain ⟨b1, b2, b3, b4⟩ := ih (applyStep p st h).1 a1
+    rw [sessionAfter_cons, regsOf_cons]
+    refine ⟨b1, fun k => ?_, fun n => ?_, fun n => ?_⟩
+    · rw [b2, a2, registeredFor_append, List.append_assoc]
+    · rw [b3, a3, List.foldl_append]
+    · rw [b4, a4, List.foldl_append]
+
+/-- after any history on a fresh client the registry is the one a fresh client gets from the registrations alone -/
+theorem session_registry (p : Prims) (hs : List HStep) :
+    WF (sessionAfter p {} hs).client ∧
+    (∀ k, stored (sessionAfter p {} hs).client k = registeredFor (regsOf hs) k) ∧
+    (∀ n, (sessionAfter p {} hs).client.getattr n = attrOf (regsOf hs) n) := by
+  obtain ⟨h1, h2, h3, h4⟩ := sessionAfter_client p hs {} wf_empty
+  refine ⟨h1, fun k => ?_, fun n => ?_⟩
+  · have := h2 k
+    simpa [stored, lookupKey] using this
+  · unfold Client.getattr attrOf
+    rw [h3, h4]
+    rfl
+
+theorem specListC_session (p : Prims) (hs : List HStep) (k : Key) :
+    specListC (sessionAfter p {} hs).client k (methodName k) = specHandlers (regsOf hs) k := by
+  obtain ⟨_, h1, h2⟩ := session_registry p hs
+  simp only [specListC, specHandlers, h1, h2]
+
 /-! ### exactly once, in order -/
 
 def callIds : List Event → List Nat
